@@ -497,19 +497,22 @@ fn translate_block(
             // We need to make the conditional branch comparison, save it to a
             // temporary, and branch based on the temporary.
             //
+            // Branch targets are 32-bit addresses: capstone computes them in
+            // 64 bits, so they are reduced modulo 2^32 here.
+            //
             // This temporary will always be called, "Branching condition"
             match instruction_id {
                 capstone::mips_insn::MIPS_INS_B => {
                     block_graphs.push((instruction.address, nop_graph(instruction.address)?));
                     let operand = semantics::details(&instruction)?.operands[0];
-                    successors.push((operand.imm() as u64, None));
+                    successors.push((operand.imm() as u32 as u64, None));
                     branch_delay = TranslateBranchDelay::Branch;
                 }
                 capstone::mips_insn::MIPS_INS_BEQ => {
                     let detail = semantics::details(&instruction)?;
                     let lhs = semantics::get_register(detail.operands[0].reg())?.expression();
                     let rhs = semantics::get_register(detail.operands[1].reg())?.expression();
-                    let target = detail.operands[2].imm() as u64;
+                    let target = detail.operands[2].imm() as u32 as u64;
                     let condition = Expression::cmpeq(lhs, rhs)?;
 
                     conditional_direct_branch(
@@ -527,7 +530,7 @@ fn translate_block(
                     let detail = semantics::details(&instruction)?;
                     let lhs = semantics::get_register(detail.operands[0].reg())?.expression();
                     let rhs = expr_const(0, 32);
-                    let target = detail.operands[1].imm() as u64;
+                    let target = detail.operands[1].imm() as u32 as u64;
                     let condition = Expression::cmpeq(lhs, rhs)?;
 
                     conditional_direct_branch(
@@ -545,7 +548,7 @@ fn translate_block(
                     let detail = semantics::details(&instruction)?;
                     let lhs = semantics::get_register(detail.operands[0].reg())?.expression();
                     let zero = expr_const(0, 32);
-                    let target = detail.operands[1].imm() as u64;
+                    let target = detail.operands[1].imm() as u32 as u64;
                     let condition =
                         Expression::cmpeq(Expression::cmplts(lhs, zero)?, expr_const(0, 1))?;
 
@@ -564,7 +567,7 @@ fn translate_block(
                     let detail = semantics::details(&instruction)?;
                     let lhs = semantics::get_register(detail.operands[0].reg())?.expression();
                     let zero = expr_const(0, 32);
-                    let target = detail.operands[1].imm() as u64;
+                    let target = detail.operands[1].imm() as u32 as u64;
                     let condition = Expression::cmplts(zero, lhs)?;
 
                     conditional_direct_branch(
@@ -582,7 +585,7 @@ fn translate_block(
                     let detail = semantics::details(&instruction)?;
                     let lhs = semantics::get_register(detail.operands[0].reg())?.expression();
                     let zero = expr_const(0, 32);
-                    let target = detail.operands[1].imm() as u64;
+                    let target = detail.operands[1].imm() as u32 as u64;
                     let condition = Expression::or(
                         Expression::cmplts(lhs.clone(), zero.clone())?,
                         Expression::cmpeq(lhs, zero)?,
@@ -603,7 +606,7 @@ fn translate_block(
                     let detail = semantics::details(&instruction)?;
                     let lhs = semantics::get_register(detail.operands[0].reg())?.expression();
                     let zero = expr_const(0, 32);
-                    let target = detail.operands[1].imm() as u64;
+                    let target = detail.operands[1].imm() as u32 as u64;
                     let condition = Expression::cmplts(lhs, zero)?;
 
                     conditional_direct_branch(
@@ -621,7 +624,7 @@ fn translate_block(
                     let detail = semantics::details(&instruction)?;
                     let lhs = semantics::get_register(detail.operands[0].reg())?.expression();
                     let rhs = semantics::get_register(detail.operands[1].reg())?.expression();
-                    let target = detail.operands[2].imm() as u64;
+                    let target = detail.operands[2].imm() as u32 as u64;
                     let condition = Expression::cmpneq(lhs.clone(), rhs.clone())?;
 
                     conditional_direct_branch(
@@ -639,7 +642,7 @@ fn translate_block(
                     let detail = semantics::details(&instruction)?;
                     let lhs = semantics::get_register(detail.operands[0].reg())?.expression();
                     let rhs = expr_const(0, 32);
-                    let target = detail.operands[1].imm() as u64;
+                    let target = detail.operands[1].imm() as u32 as u64;
                     let condition = Expression::cmpneq(lhs.clone(), rhs.clone())?;
 
                     conditional_direct_branch(
@@ -656,7 +659,7 @@ fn translate_block(
                 capstone::mips_insn::MIPS_INS_J => {
                     block_graphs.push((instruction.address, nop_graph(instruction.address)?));
                     let operand = semantics::details(&instruction)?.operands[0];
-                    successors.push((operand.imm() as u64, None));
+                    successors.push((operand.imm() as u32 as u64, None));
                     branch_delay = TranslateBranchDelay::Branch;
                 }
                 capstone::mips_insn::MIPS_INS_BAL
